@@ -20,6 +20,36 @@ from . import resid
 SCHEMES = ["explicit_euler", "generalized_rush_larsen", "hybrid_rush_larsen"]
 
 
+# Names are arbitrary (C04: "for every generated module", C19): a generated model may be replayed under a consistent
+# renaming of its identifiers.  Values are compared by name through the module's own index functions, so nothing
+# the specification computed depends on the spelling.
+RENAMINGS = [
+    {"u": "_u", "k": "k_1", "c": "C_", "x": "V", "y": "m_gate", "p": "g_Na", "q": "_q", "U": "tau_U"},
+    {"u": "__tmp", "k": "K", "c": "c0", "x": "X_", "y": "_y", "p": "P1", "q": "Q_q", "U": "u_"},
+]
+
+
+def rename_rec(rec, mapping):
+    m = dict(mapping)
+    for s in [n for n in mapping if f"d{n}_dt" in {e["name"] for b in rec["blocks"] for e in b["entries"]}]:
+        m[f"d{s}_dt"] = f"d{mapping[s]}_dt"
+    rn = lambda n: m.get(n, n)  # noqa: E731
+    keyed = lambda d: {rn(k): v for k, v in d.items()}  # noqa: E731
+    out = dict(rec)
+    out["blocks"] = [dict(b, entries=[dict(e, name=rn(e["name"]), toks=[rn(t) for t in e["toks"]]) for e in b["entries"]]) for b in rec["blocks"]]
+    if "names" in rec:
+        out["names"] = sorted(rn(n) for n in rec["names"])
+    if "defaults" in rec:
+        out["defaults"] = keyed(rec["defaults"])
+    if "unused" in rec:
+        out["unused"] = [rn(n) for n in rec["unused"]]
+    out["cases"] = [{"input": dict(c["input"], states=keyed(c["input"]["states"]), params=keyed(c["input"]["params"])),
+                     "expect": {k: keyed(v) for k, v in c["expect"].items()}} for c in rec["cases"]]
+    out["stiff"] = [rn("x")]
+    out["renamed"] = True
+    return out
+
+
 def scheme_order(schemes, key: str):
     """The schemes in an order derived from `key`: the order in which one code generator is asked for several
     schemes of one model object must not matter (state kept on the model between two schemes would show)."""
@@ -264,6 +294,7 @@ def check_model_case(rec, backend="numpy", remove_unused=(False, True), workdir=
     pnames = [e["name"] for b in rec["blocks"] if b["k"] == "parameters" for e in b["entries"]]
     anames = [e["name"] for b in rec["blocks"] if b["k"] == "expressions" for e in b["entries"]]
     delta = float(rec.get("delta", "1e-8"))
+    stiff = tuple(rec.get("stiff", stiff))
     results = {}
     for ru in remove_unused:
         ctx = {**ctx0, "remove_unused": ru}
